@@ -667,6 +667,80 @@ def b_snap_insert(S):
     return out
 
 
+def b_determine_intersect(S):
+    """`determine_intersect`: which ordered pair of sets an X/Y node between two sets is recorded under, or ValueError"""
+    fn = find_func(ast.parse(S[REL]), "determine_intersect")
+    dicts = [n for n in ast.walk(fn) if isinstance(n, ast.Assign) and ast.unparse(n.targets[0]) == "addition"]
+    for d in dicts:
+        if not isinstance(d.value, ast.Dict) or {ast.literal_eval(k): ast.unparse(v) for k, v in zip(d.value.keys, d.value.values)} != {
+                "node": "node", "nodeclass": "node_class", "sets": "sets", "error": "False"}:
+            raise Untranslatable("determine_intersect: result dict is not {node, nodeclass, sets, error: False}")
+    if len(dicts) != 2:
+        raise Untranslatable(f"determine_intersect: expected 2 result dicts, found {len(dicts)}")
+    src = standalone(S[REL], "determine_intersect", [(r"addition = \{[^}]*\}", "pass"), (r"return addition", "return sets")])
+    return translate_function(
+        src, "determine_intersect", "determine_intersect",
+        {"node_class": "String", "l1": "Bool", "l2": "Bool", "first_set": "String", "second_set": "String"}, "String × String",
+        {"first_setpointtree.intersects(node.buffer(buffer_value))": "p1_query"},
+        types={"first_setpointtree.intersects(node.buffer(buffer_value))": "Bool", "p1": "Bool", "sets": "String × String"},
+        raises=True, extra_params=[("p1_query", "Bool")], slice_from='if node_class == "X"', join="tuple")
+
+
+def b_relationship_loop(S):
+    """the loop of `determine_crosscut_abutting_relationships` over all pairs of sets: the skip of pairs with an empty set, the
+    reading of the grouped counts into x / y / y-reverse, one row per remaining pair. The pandas / GEOS part of a pair (which
+    nodes touch both sets, how they are classified, the grouped counts, the error count) is a parameter."""
+    src0 = S[REL]
+    q = "determine_crosscut_abutting_relationships"
+    fn = find_func(ast.parse(src0), q)
+    dicts = [n for n in ast.walk(fn) if isinstance(n, ast.Assign) and ast.unparse(n.targets[0]) == "addition" and isinstance(n.value, ast.Dict)]
+    want = {"name": "label", "sets": "(first_set, second_set)", "x": "x_count", "y": "y_count", "y-reverse": "y_reverse_count",
+            "error-count": "len(intersectframe.loc[intersectframe.error])"}
+    if len(dicts) != 1 or {ast.literal_eval(k): ast.unparse(v) for k, v in zip(dicts[0].value.keys, dicts[0].value.values)} != want:
+        raise Untranslatable("relationship row dict changed")
+    src = standalone(src0, q, [(r"addition = \{[^}]*\}", "addition = (label, (first_set, second_set), x_count, y_count, y_reverse_count, ERRCOUNT)")])
+    tst = "trace_series_two_sets: Tuple[gpd.GeoSeries, gpd.GeoSeries] = (trace_series.loc[set_array == first_set], trace_series.loc[set_array == second_set])"
+    f2 = find_func(ast.parse(src), q)
+    loop = [st for st in f2.body if isinstance(st, ast.For)]
+    if len(loop) != 1 or ast.unparse(loop[0].iter) != "set_combinations" or ast.unparse(loop[0].body[0]) != tst:
+        raise Untranslatable("pair loop / selection of the two sets' traces changed")
+    pre = {ast.unparse(st.targets[0]): ast.unparse(st.value) for st in f2.body if isinstance(st, ast.Assign) and len(st.targets) == 1}
+    if pre.get("set_combinations") != "combinations(set_names, 2)":
+        raise Untranslatable("set_combinations is not combinations(set_names, 2)")
+    k1 = _kwcall(src, q, "determine_nodes_intersecting_sets", {"trace_series_two_sets": "trace_series_two_sets", "set_names_two_sets": "set_names_two_sets",
+                                                                "node_series_xy": "node_series_xy", "buffer_value": "buffer_value"})
+    k2 = _kwcall(src, q, "determine_intersects", {"trace_series_two_sets": "trace_series_two_sets", "node_series_xy_intersects": "node_series_xy_intersects",
+                                                   "node_types_xy_intersects": "node_types_xy_intersects", "set_names_two_sets": "set_names_two_sets",
+                                                   "buffer_value": "buffer_value"})
+    C = dict(gconsts(S))
+    C.update({
+        "combinations(set_names, 2)": "(pyCombinations2 set_names)",
+        "(trace_series.loc[set_array == first_set], trace_series.loc[set_array == second_set])": "()",
+        "any(series.shape[0] == 0 for series in trace_series_two_sets)": "(!(nonEmpty first_set) || !(nonEmpty second_set))",
+        "(first_set, second_set)": "(first_set, second_set)", "(second_set, first_set)": "(second_set, first_set)",
+        k1: "()", "node_series_xy.loc[intersects_both_sets]": "()", "node_types_xy[intersects_both_sets]": "()", k2: "()",
+        "intersectframe.groupby(['nodeclass', 'sets']).size()": "()",
+        "list(intersect_series.items())": "(items first_set second_set)",
+        "item[1]": "item.2", "item[0][0]": "item.1.1", "item[0][1]": "item.1.2",
+        "ERRCOUNT": "(errcount first_set second_set)",
+    })
+    unit = ["(trace_series.loc[set_array == first_set], trace_series.loc[set_array == second_set])", k1, "node_series_xy.loc[intersects_both_sets]",
+            "node_types_xy[intersects_both_sets]", k2, "intersectframe.groupby(['nodeclass', 'sets']).size()"]
+    T = {u: "Unit" for u in unit}
+    T.update({"set_combinations": "List (String × String)", "combinations(set_names, 2)": "List (String × String)", "any(series.shape[0] == 0 for series in trace_series_two_sets)": "Bool",
+              "(first_set, second_set)": "String × String", "(second_set, first_set)": "String × String",
+              "list(intersect_series.items())": "List ((String × (String × String)) × Nat)", "item[1]": "Nat", "item[0][0]": "String", "item[0][1]": "String × String",
+              "value": "Nat", "x_count": "Nat", "y_count": "Nat", "y_reverse_count": "Nat", "ERRCOUNT": "Nat",
+              "additions": "List (String × (String × String) × Nat × Nat × Nat × Nat)", "addition": "String × (String × String) × Nat × Nat × Nat × Nat",
+              "trace_series_two_sets": "Unit", "set_names_two_sets": "String × String", "intersects_both_sets": "Unit", "node_series_xy_intersects": "Unit",
+              "node_types_xy_intersects": "Unit", "intersectframe": "Unit", "intersect_series": "Unit"})
+    return translate_function(
+        src, q, "relationship_rows",
+        {"set_names": "List String", "label": "String"}, "List (String × (String × String) × Nat × Nat × Nat × Nat)", C, types=T, raises=True,
+        extra_params=[("nonEmpty", "String → Bool"), ("items", "String → String → List ((String × (String × String)) × Nat)"), ("errcount", "String → String → Nat")],
+        slice_from="if len(set_names) < 2", slice_to="additions_df =", returns_var="additions", default_num="Nat", join="tuple")
+
+
 def b_validate_step(S):
     """`Validation._validate`: the per-(row, validator) decision; what the validator answers and what its fix returns are parameters"""
     C = {
@@ -1030,6 +1104,8 @@ ITEMS: List[Item] = [
     Item("Grid", GRID, ["C18"], b_grid),
     Item("IndexMargins", GENERAL, ["C16"], b_index_margins, extra_modules=[PROX]),
     Item("Cli", CLI, ["C19"], b_cli),
+    Item("DetermineIntersect", REL, ["C12"], b_determine_intersect),
+    Item("RelationshipLoop", REL, ["C12"], b_relationship_loop, extra_modules=[GENERAL]),
     Item("Windows", TVALS, ["C10", "C03", "C06"], b_windows, extra_modules=[BAN]),
     Item("RandomRadius", RSAMP, ["C20"], b_random_radius, extra_modules=[GENERAL]),
     Item("AggregateDispatch", SUBS, ["C20"], b_aggregate_dispatch),
